@@ -247,7 +247,8 @@ def gen_swap_model(rng, kind):
         n = int(rng.choice([1, 2, 2, 3]))
         sym = "8"
         h, eri, style = L.gen_integrals(rng, n, sym, style=str(rng.choice(["dense", "sparse", "integer", "block"])))
-        tm = L.qc_tmodel(h, eri, True, sym, style)
+        # with and without particle-number labels (without: every operator carries label 0)
+        tm = L.qc_tmodel(h, eri, bool(rng.random() < 0.6), sym, style)
         if kind == "qc-sigma":
             tm.lib_terms = rename_sigma(tm.lib_terms)
             tm.label = "qc-sigma"
